@@ -734,6 +734,99 @@ Fixpoint drun (d : dworld) (ops : list op) : dworld * list obs :=
   end.
 
 (* ------------------------------------------------------------------------------------------- *)
+(** ** 5b. Reading the data log into the flush buffer (ncbbio_log_flush_core, batch scan)
+
+    The data log holds the bytes of ALL entries in log order (cancelling an entry leaves its bytes in
+    the file).  While a batch is scanned, valid entries only raise [databufferused]; when a cancelled
+    entry is met, the valid bytes seen so far are read into the buffer at [databuffer + dataread]
+    and the cancelled bytes are skipped with a seek; a last read follows the scan.  The replay then
+    walks [databufferoff] over the valid entries.  The file position persists from round to round. *)
+Section DataLog.
+Variable A : Type.
+Variable cells : entry -> list A.            (* the bytes an entry put into the data log *)
+
+Record rdstate : Type := mkRd { rd_pos : nat; rd_buf : list A; rd_read : nat; rd_used : nat }.
+
+Definition write_at (off : nat) (d buf : list A) : list A :=
+  firstn off buf ++ d ++ skipn (off + length d) buf.
+
+(** [if (dataread < databufferused) { read(datalog, databuffer + dataread, used - dataread); dataread = used; }]
+    ([at_dataread = false]: the read before a cancelled entry targets [databuffer] itself) *)
+Definition do_read (at_dataread : bool) (dl : list A) (s : rdstate) : rdstate :=
+  if (rd_read s <? rd_used s)%nat
+  then mkRd (rd_pos s + (rd_used s - rd_read s))
+            (write_at (if at_dataread then rd_read s else 0%nat)
+                      (firstn (rd_used s - rd_read s) (skipn (rd_pos s) dl)) (rd_buf s))
+            (rd_used s) (rd_used s)
+  else s.
+
+Fixpoint scan_read (at_dataread : bool) (dl : list A) (b : list entry) (s : rdstate) : rdstate :=
+  match b with
+  | [] => do_read true dl s                 (* the read after the scan *)
+  | e :: r =>
+      if e_valid e
+      then scan_read at_dataread dl r (mkRd (rd_pos s) (rd_buf s) (rd_read s) (rd_used s + length (cells e)))
+      else let s' := do_read at_dataread dl s in
+           scan_read at_dataread dl r (mkRd (rd_pos s' + length (cells e)) (rd_buf s') (rd_read s') (rd_used s'))
+  end.
+
+(** [databufferoff = databuffer; for valid entries: iput(..., databufferoff, ...); databufferoff += data_len] *)
+Fixpoint slice_data (b : list entry) (buf : list A) : list (list A) :=
+  match b with
+  | [] => []
+  | e :: r => if e_valid e
+              then firstn (length (cells e)) buf :: slice_data r (skipn (length (cells e)) buf)
+              else slice_data r buf
+  end.
+
+Fixpoint read_batches (at_dataread : bool) (dl : list A) (bs : list (list entry)) (pos : nat)
+  : list (list (list A)) :=
+  match bs with
+  | [] => []
+  | b :: r => let s := scan_read at_dataread dl b (mkRd pos [] 0 0) in
+              slice_data b (rd_buf s) :: read_batches at_dataread dl r (rd_pos s)
+  end.
+End DataLog.
+
+(** the bytes of an entry, named by (creating script line, byte index): line * 65536 + index *)
+Definition entry_cells (e : entry) : list Z :=
+  map (fun i => e_line e * 65536 + Z.of_nat i) (seq 0 (Z.to_nat (e_datalen e))).
+
+(** the data every replayed iput of a flush of log [l] is given, in replay order: (line, bytes) *)
+Definition flush_data (hint : Z) (l : logst) : option (list (Z * list Z)) :=
+  match batch_loop (S (length (l_entries l))) (buffer_size hint l) (l_entries l) with
+  | None => None
+  | Some bs =>
+      Some (combine (map e_line (valid_entries (l_entries l)))
+                    (concat (read_batches Z entry_cells bb_read_at_dataread
+                                          (flat_map entry_cells (l_entries l)) bs 0)))
+  end.
+
+(** ranks whose log is replayed by an operation (evaluated on the state BEFORE the operation) *)
+Definition flushing_ranks (w : world) (o : op) : list nat :=
+  let pick := fun who => if w_indep w then who else all_ranks w in
+  let all := all_ranks w in
+  let ranks := match o with
+               | OGet _ who => pick (map fst who)
+               | OWait _ _ who => pick (map fst who)
+               | OSync _ | OFlush _ | ORedef _ | OClose _ => all
+               | _ => []
+               end in
+  filter (fun k => negb (w_indep w) || match l_entries (r_log (get_rank w k)) with [] => false | _ => true end) ranks.
+
+Definition op_data_obs (cfg : config) (w : world) (o : op) : list (list Z) :=
+  flat_map (fun k => match flush_data (c_hint cfg) (r_log (get_rank w k)) with
+                     | None => [[13; Z.of_nat k]]
+                     | Some l => map (fun ld => 12 :: Z.of_nat k :: fst ld :: snd ld) l
+                     end) (flushing_ranks w o).
+
+Fixpoint run_data (cfg : config) (ord : list wr -> list wr) (w : world) (ops : list op) : list (list Z) :=
+  match ops with
+  | [] => []
+  | o :: r => op_data_obs cfg w o ++ run_data cfg ord (fst (step cfg ord w o)) r
+  end.
+
+(* ------------------------------------------------------------------------------------------- *)
 (** ** 6. Case runner used by the correspondence check (checks/C12.py writes cases as terms) *)
 
 Definition ev_obs (k : nat) (e : event) : obs :=
@@ -761,6 +854,7 @@ Definition run_case (np : nat) (hint : Z) (del : bool) (flags : list (nat * Z)) 
   ob
   ++ flat_map (fun k => map (ev_obs k) (r_ev (get_rank w k))) (seq 0 np)
   ++ flat_map (fun k => map (entry_obs k) (l_entries (r_log (get_rank pre k)))) (seq 0 np)
+  ++ run_data cfg ord_id (world_init np) ops
   ++ [[50; if w_logs w then 1 else 0]; [51; if w_spin w then 1 else 0];
       60 :: map (fun k => optz (w_file w k)) keys;
       [61; zmax_list (map r_nr (w_rs w))]]
